@@ -1,5 +1,5 @@
 import AmqModel.Driver.Common
-import AmqModel.Model.Conn
+import AmqModel.Model.ConnRun
 namespace AmqModel.Driver
 open AmqModel.Conn AmqModel.Collector
 
@@ -23,8 +23,19 @@ def showErr : Err → String
   | .hang => "HANG"
   | .modelBadInput => "MODEL-BAD-INPUT"
 
+def showField : Field → String
+  | .nat n => s!"n:{n}"
+  | .bool b => "b:" ++ showBool b
+  | .bytes bs => "x:" ++ toHex bs
+
+def parseField (s : String) : Option Field :=
+  if s.startsWith "n:" then (s.drop 2).toString.toNat?.map .nat
+  else if s.startsWith "b:" then (parseBool (s.drop 2).toString).map .bool
+  else if s.startsWith "x:" then (fromHex (s.drop 2).toString).map .bytes
+  else none
+
 def showReply : Reply → String
-  | .method cls mid fs => " ".intercalate (["reply", "method", toString cls, toString mid] ++ fs)
+  | .method cls mid fs => " ".intercalate (["reply", "method", toString cls, toString mid] ++ fs.map showField)
   | .consumeOk tag _ => s!"reply consume-ok {toHex tag}"
   | .getNone => "reply get none"
   | .getSome ch dtag red ex rk count props body =>
@@ -57,7 +68,8 @@ def parseFrameToks : List String → Option Frame
   | ["heartbeat", ch] => ch.toNat?.map .heartbeat
   | "method" :: ch :: cls :: mid :: fields => do
     let ch ← ch.toNat?; let cls ← cls.toNat?; let mid ← mid.toNat?
-    pure (.method ch cls mid fields)
+    let fs ← fields.mapM parseField
+    pure (.method ch cls mid fs)
   | ["header", ch, cid, size, props] => do
     let ch ← ch.toNat?; let cid ← cid.toNat?; let size ← size.toNat?; let props ← fromHex props
     pure (.header ch cid size props)
@@ -97,12 +109,76 @@ def showPTok : PTok → String
   | .alloc => "alloc"
   | .setBlocked => "blocked"
 
-/-- Result line(s) of an I/O-thread step; an error ends the loop. -/
-def ioResult (c : Conn) (e : Option Err) (pre : List String := []) : Option Conn × List String :=
-  let nd := if c.nondet then ["nondet"] else []
-  match e with
-  | none => (some c, pre ++ ["res ok"] ++ nd)
-  | some e => (some (kill c), pre ++ ["res err " ++ showErr e] ++ nd)
+/-- Output lines of an I/O-thread step (`ioStep`). -/
+def ioLines (o : IoOut) : List String :=
+  if o.dead then ["dead"]
+  else
+    let w := match o.wrote with
+      | some bs => ["wrote " ++ toHex bs]
+      | none => []
+    let nd := if o.nondet then ["nondet"] else []
+    match o.done with
+    | some (some b) => ["done " ++ showBool b]
+    | some none => ["done PANIC"]
+    | none =>
+      match o.err with
+      | none => w ++ ["res ok"] ++ nd
+      | some e => w ++ ["res err " ++ showErr e] ++ nd
+
+def readyLine (toks : List PTok) : String :=
+  let names := toks.map showPTok
+  let nums := (names.filterMap String.toNat?).mergeSort (· ≤ ·)
+  let others := (names.filter (fun x => x.toNat?.isNone)).mergeSort (· ≤ ·)
+  " ".intercalate ("ready" :: (nums.map toString ++ others))
+
+def clientLine : ClientOut → String
+  | .none => "ok"
+  | .sent o => showSend o
+  | .alloc .empty => "alloc empty"
+  | .alloc .disconnected => "alloc disconnected"
+  | .alloc (.ok id) => s!"alloc ok {id}"
+  | .alloc (.err e) => "alloc err " ++ showErr e
+  | .reply .empty => "reply empty"
+  | .reply .disconnected => "reply disconnected"
+  | .reply (.got r) => showReply r
+  | .cons .empty => "cons empty"
+  | .cons .disconnected => "cons disconnected"
+  | .cons (.got m) => showCMsg m
+  | .lst .empty => "lst empty"
+  | .lst .disconnected => "lst disconnected"
+  | .lst (.got m) => showLMsg m
+
+def parseIoOp : List String → Option IoOp
+  | ["frame", h] => (fromHex h).map .frame
+  | ["ev", "stream", rw] => some (.event (.stream (rw.contains 'r') (rw.contains 'w')))
+  | ["ev", "hb"] => some (.event .heartbeat)
+  | ["ev", "alloc"] => some (.event .alloc)
+  | ["ev", "blocked"] => some (.event .setBlocked)
+  | ["ev", n] => n.toNat?.map (fun k => .event (.chan k))
+  | ["write"] => some .write
+  | ["done"] => some .done
+  | ["dereg"] => some .dereg
+  | ["rereg"] => some .rereg
+  | ["poll"] => some .poll
+  | ["kill"] => some .kill
+  | _ => none
+
+def parseClientOp : List String → Option ClientOp
+  | ["alloc-req", "none"] => some (.allocReq none)
+  | ["alloc-req", "some", n] => n.toNat?.map (fun k => .allocReq (some k))
+  | ["alloc-rep", label] => some (.allocRep label)
+  | ["send", label, "send", h] => (fromHex h).map (fun b => .send label (.send b))
+  | ["send", label, "close0", h] => (fromHex h).map (fun b => .send label (.connectionClose b))
+  | ["send", label, "setret", l] => some (.send label (.setReturn (if l = "none" then none else some l)))
+  | ["send", label, "setconf", l] => some (.send label (.setConfirm (if l = "none" then none else some l)))
+  | ["setblocked", l] => some (.setBlocked l)
+  | ["recv", label, cl] => some (.recv label cl)
+  | ["crecv", cl] => some (.crecv cl)
+  | ["lrecv", l] => some (.lrecv l)
+  | ["drop-handle", label] => some (.dropHandle label)
+  | ["drop-cons", cl] => some (.dropCons cl)
+  | ["drop-lst", l] => some (.dropLst l)
+  | _ => none
 
 def machineStep (legacy : Bool) (s : Option Conn) (toks : List String) : Option Conn × List String :=
   match toks, s with
@@ -113,115 +189,32 @@ def machineStep (legacy : Bool) (s : Option Conn) (toks : List String) : Option 
   | "decl" :: h :: dc :: df :: rest, some c =>
     match fromHex h, fromHex dc, fromHex df with
     | some bytes, some dc, some df =>
-      if rest = ["bad"] then (some { c with table := c.table ++ [⟨bytes, none, dc, df⟩] }, ["ok"])
+      if rest = ["bad"] then (some (step c (.decl ⟨bytes, none, dc, df⟩)), ["ok"])
       else match parseFrameToks rest with
-        | some f => (some { c with table := c.table ++ [⟨bytes, some f, dc, df⟩] }, ["ok"])
+        | some f => (some (step c (.decl ⟨bytes, some f, dc, df⟩)), ["ok"])
         | none => (s, ["bad-op"])
     | _, _, _ => (s, ["bad-op"])
-  | ["feed"], some _ => (s, ["ok"])
   | "feed" :: evs, some c =>
     match evs.mapM parseReadEv with
-    | some es => (some { c with reads := c.reads ++ es }, ["ok"])
+    | some es => (some (step c (.feed es)), ["ok"])
     | none => (s, ["bad-op"])
   | "wscript" :: ws, some c =>
     match ws.mapM parseWriteStep with
-    | some w => (some { c with writes := c.writes ++ w }, ["ok"])
+    | some w => (some (step c (.wscript w)), ["ok"])
     | none => (s, ["bad-op"])
-  | ["frame", h], some c =>
-    if c.dead then (s, ["dead"])
-    else match fromHex h with
-      | some bytes => let (c1, e) := processBytes c bytes; ioResult c1 e
-      | none => (s, ["bad-op"])
-  | ["ev", "stream", rw], some c =>
-    if c.dead then (s, ["dead"])
-    else
-      let (c1, wrote, e) := handleEvent c (.stream (rw.contains 'r') (rw.contains 'w'))
-      ioResult c1 e (if rw.contains 'w' then ["wrote " ++ toHex wrote] else [])
-  | ["ev", tok], some c =>
-    if c.dead then (s, ["dead"])
-    else
-      let t : Option Token := match tok with
-        | "hb" => some .heartbeat
-        | "alloc" => some .alloc
-        | "blocked" => some .setBlocked
-        | n => n.toNat?.map .chan
-      match t with
-      | some t => let (c1, _, e) := handleEvent c t; ioResult c1 e
-      | none => (s, ["bad-op"])
-  | ["write"], some c =>
-    if c.dead then (s, ["dead"])
-    else let (c1, wrote, e) := writeToStream c; ioResult c1 e ["wrote " ++ toHex wrote]
-  | ["done"], some c =>
-    if c.dead then (s, ["dead"])
-    else match isDone c with
-      | some b => (s, ["done " ++ showBool b])
-      | none => (some (kill c), ["done PANIC"])
-  | ["dereg"], some c => if c.dead then (s, ["dead"]) else (some (deregisterAll c), ["ok"])
-  | ["rereg"], some c => if c.dead then (s, ["dead"]) else (some (reregisterAll c), ["ok"])
-  | ["poll"], some c =>
-    if c.dead then (s, ["dead"])
-    else
-      let (c1, toks) := pollAll c
-      let names := (toks.map showPTok)
-      let nums := (names.filterMap String.toNat?).mergeSort (· ≤ ·)
-      let others := (names.filter (fun x => x.toNat?.isNone)).mergeSort (· ≤ ·)
-      (some c1, [" ".intercalate ("ready" :: (nums.map toString ++ others))])
   | ["dump"], some c => if c.dead then (s, ["dead"]) else (s, dumpLines c)
-  | ["kill"], some c => (some (kill c), ["ok"])
-  | ["alloc-req", "none"], some c => let (c1, o) := allocRequest c none; (some c1, [showSend o])
-  | ["alloc-req", "some", n], some c =>
-    match n.toNat? with
-    | some n => let (c1, o) := allocRequest c (some n); (some c1, [showSend o])
-    | none => (s, ["bad-op"])
-  | ["alloc-rep", label], some c =>
-    let (c1, o) := allocReply c label
-    let line := match o with
-      | .empty => "alloc empty"
-      | .disconnected => "alloc disconnected"
-      | .ok id => s!"alloc ok {id}"
-      | .err e => "alloc err " ++ showErr e
-    (some c1, [line])
-  | ["send", label, "send", h], some c =>
-    match fromHex h with
-    | some b => let (c1, o) := clientSend c label (.send b); (some c1, [showSend o])
-    | none => (s, ["bad-op"])
-  | ["send", label, "close0", h], some c =>
-    match fromHex h with
-    | some b => let (c1, o) := clientSend c label (.connectionClose b); (some c1, [showSend o])
-    | none => (s, ["bad-op"])
-  | ["send", label, kind, l], some c =>
-    if kind = "setret" || kind = "setconf" then
-      let (c0, arg) := if l = "none" then (c, none) else (newListener c l, some l)
-      let m := if kind = "setret" then Msg.setReturn arg else Msg.setConfirm arg
-      let (c1, o) := clientSend c0 label m
-      (some c1, [showSend o])
-    else (s, ["bad-op"])
-  | ["setblocked", l], some c =>
-    let (c1, o) := setBlockedRequest (newListener c l) l; (some c1, [showSend o])
-  | ["recv", label, cl], some c =>
-    let (c1, o) := clientRecv c label cl
-    let line := match o with
-      | .empty => "reply empty"
-      | .disconnected => "reply disconnected"
-      | .got r => showReply r
-    (some c1, [line])
-  | ["crecv", cl], some c =>
-    let (c1, o) := consRecv c cl
-    let line := match o with
-      | .empty => "cons empty"
-      | .disconnected => "cons disconnected"
-      | .got m => showCMsg m
-    (some c1, [line])
-  | ["lrecv", l], some c =>
-    let (c1, o) := lstRecv c l
-    let line := match o with
-      | .empty => "lst empty"
-      | .disconnected => "lst disconnected"
-      | .got m => showLMsg m
-    (some c1, [line])
-  | ["drop-handle", label], some c => (some (dropHandle c label), ["ok"])
-  | ["drop-cons", cl], some c => (some (dropCons c cl), ["ok"])
-  | ["drop-lst", l], some c => (some (dropListener c l), ["ok"])
+  | _, some c =>
+    match parseIoOp toks with
+    | some o =>
+      let (c1, out) := ioStep c o
+      match o with
+      | .poll => (some c1, if out.dead then ["dead"] else [readyLine out.ready])
+      | .dereg | .rereg | .kill => (some c1, if out.dead then ["dead"] else ["ok"])
+      | _ => (some c1, ioLines out)
+    | none =>
+      match parseClientOp toks with
+      | some o => let (c1, out) := clientStep c o; (some c1, [clientLine out])
+      | none => (s, ["bad-op"])
   | _, _ => (s, ["bad-op"])
 
 def machineEngine : Engine := { σ := Option Conn, init := none, step := machineStep false }
